@@ -2,7 +2,11 @@
 
 package codex
 
-import "github.com/creack/pty"
+import (
+	"github.com/creack/pty"
+
+	"hop.computer/hop/tubes"
+)
 
 // VerifExecInitBytes is newExecInitMsg(...).ToBytes() (verification harness only).
 func VerifExecInitBytes(usePty bool, cmd, term string, hasSize bool, rows, cols, x, y uint16) []byte {
@@ -12,3 +16,7 @@ func VerifExecInitBytes(usePty bool, cmd, term string, hasSize bool, rows, cols,
 	}
 	return newExecInitMsg(usePty, cmd, term, size).ToBytes()
 }
+
+// VerifGetStatus is getStatus: the client's reader of the exec status a server sends (verification
+// harness only).
+func VerifGetStatus(t *tubes.Reliable) error { return getStatus(t) }
